@@ -1,4 +1,10 @@
 import CoxeterVerif.Lemmas.MeshIOXml
+import CoxeterVerif.Lemmas.MeshIOFloatRepr
+import CoxeterVerif.Lemmas.MeshIOFloatRound
+import CoxeterVerif.Lemmas.MeshIOHeap
+import CoxeterVerif.Lemmas.MeshIOGeom
+import CoxeterVerif.Lemmas.MeshIOSound
+import CoxeterVerif.Lemmas.MeshIOXmlText
 /-!
   # C20 — exported mesh files describe exactly the polyhedron
 
@@ -19,10 +25,36 @@ import CoxeterVerif.Lemmas.MeshIOXml
   vertex / face records that follow and nothing is left over (`readBody`, `readVtkBody`), so each round-trip
   theorem contains "declared counts = data counts".
 
-  Not theorems (checked on the real files by harness/c20.py only): `float(token) == coordinate`, outward
-  orientation and signed volume, STL normal direction, the edge count of the OFF header being the number of
-  undirected edges (only `2·E = Σ face degrees` for closed surfaces is proved, `off_edge_count`), `save` not
-  mutating the shape.
+  Deepening round (second half of this file):
+  * NUMBERS.  `tokSignMag` / `ReadsAs` (Spec) give a coordinate token its exact rational value and say when a correctly
+    rounding reader (ties to even) returns a given IEEE double for it.  `ReadsAs` is a function of the token
+    (`coord_token_unique`), implies the token hypotheses of the round-trip theorems (`coord_token_wf`), and the
+    `_exact` theorems say: re-reading the written file yields tokens that read as EXACTLY the shape's doubles, under the
+    certificate `coordsReadAs tokens doubles` — a decidable predicate the driver evaluates over ℚ on every run, on the
+    tokens of the real files.  `str_coord_value`: the model of `str(coord)` (`floatRepr`) prints, for every digit
+    string and decimal-point position, a token of the grammar with value `± digits · 10^(decpt − n)`: the only
+    external fact left is dtoa's contract that those digits round to the coordinate (`str_coord_reads_back`);
+    `export_roundtrip_exact` puts the pieces together: doubles + dtoa's contract ⇒ exact round trip, nothing else.
+  * NO MUTATION.  `export_no_mutation` on the heap model of the writers (`deepcopy` + the `centroid[i] -= m` loop of
+    `to_stl`, the `edges` cache of `to_off`): every array that existed keeps its contents, the shape's attributes hold
+    the same arrays, and the printed coordinates are the shape's own vertices (the STL "shift" is without effect, so
+    the STL reader recovers the vertices themselves, not a translate); with a shallow copy the theorem is false
+    (`export_no_mutation_needs_deepcopy`).
+  * STL GEOMETRY over ℝ.  `stl_normals_outward`: for a planar convex face listed counter-clockwise about `n`, every
+    printed facet normal `cross(t1−t0, t2−t1)` is a POSITIVE multiple of `n`; `stl_normals_sum` / `stl_fan_area`: the
+    facet normals add up to the face's (doubled) area vector and the facet areas to the face area.
+  * READERS REJECT WRONG COUNTS.  `declared_counts_*`: whatever text the OFF / PLY / VTK readers accept, its declared
+    vertex and face counts (and the VTK size field) are the counts of the data returned; OBJ indices are 1-based
+    (`0` is rejected) and in range; X3D faces are in range with ≥ 3 corners.
+
+  * XML TEXT.  `parseXml` (Lemmas/MeshIOXmlText.lean: an XML 1.0 element parser over characters — names, quoted
+    attribute values, the predefined entities and character references, nested content, matching end tags) inverts the
+    model of ElementTree's serialiser on every tree with XML names (`xml_parse_render`); hence the X3D and HTML round
+    trips hold at the level of the file's CHARACTERS too (`read_write_x3d_text_partial`, `read_write_html_text`).
+
+  Still not theorems (checked on the real files by harness/c20.py only): outward orientation of the face cycles
+  themselves and signed volume (C01/C07's business), the edge count of the OFF header being the number of undirected
+  edges (only `2·E = Σ face degrees` for closed surfaces is proved, `off_edge_count`).
 -/
 set_option maxRecDepth 4000
 open MeshIO
@@ -226,3 +258,405 @@ theorem save_unknown (ft ver cls : Str) (nrm : V3T → V3T → V3T → V3T) (m :
 example : save cs!"obj" ver090 clsCP nrm0 pyramid = .error "ValueError" :=
   save_unknown _ _ _ _ _ (by decide)
 
+
+/-! ## Deepening round
+
+### numbers: coordinate tokens read back as exactly the coordinates -/
+
+/-- A token that a correctly rounding reader turns into some double is a well-formed coordinate token (non-empty, no
+    blank / newline / comma, not a `#` comment): the certificate subsumes the token hypotheses of `Mesh.WF`. -/
+theorem coord_token_wf {t : Tok} {b : Nat} (h : ReadsAs t b) : WFCoord t := h.wf
+
+example : ReadsAs cs!"-2.5e-05" 0xBEFA36E2EB1C432D ∧ ReadsAs cs!"0.1" 0x3FB999999999999A
+    ∧ ¬ ReadsAs cs!"0.1" 0x3FB9999999999999 ∧ ReadsAs cs!"-0.0" 0x8000000000000000 ∧ ¬ ReadsAs cs!"0.0" 0x8000000000000000 := by
+  unfold ReadsAs; decide +kernel
+
+/-- Correct rounding (to nearest, ties to even) is a function: a token reads as at most one double, sign of zero
+    included.  So "`ReadsAs tok x`" is the same as "the reader returns exactly `x`". -/
+theorem coord_token_unique {t : Tok} {b b' : Nat} (h : ReadsAs t b) (h' : ReadsAs t b') : b = b' := h.unique h'
+
+/-- `str(coord)` (CPython `float_repr`, = numpy's `float64.__str__`) as modelled by `floatRepr`: for EVERY non-empty
+    digit string `ds` (digits < 10) and every decimal-point position `decpt` that dtoa may deliver, in all four layouts
+    (`d.ddde±XX`, `0.000ddd`, `dd.ddd`, `ddd000.0`), the printed token belongs to the number grammar of the readers,
+    carries the sign, and its exact value is `ds · 10^(decpt − len ds)`. -/
+theorem str_coord_value (neg : Bool) (ds : List Nat) (decpt : Int) (hne : ds ≠ []) (hd : ∀ d ∈ ds, d < 10) :
+    tokSignMag (floatRepr neg ds decpt) = some (neg, scale10 (digitsVal ds) (decpt - (ds.length : Int))) :=
+  tokSignMag_floatRepr neg ds decpt hne hd
+
+example : floatRepr true [2, 5] (-4) = cs!"-2.5e-05" ∧ floatRepr false [1] 17 = cs!"1e+16"
+    ∧ floatRepr false [1, 2, 3, 4, 5] 3 = cs!"123.45" ∧ floatRepr false [1, 2] 4 = cs!"1200.0"
+    ∧ floatRepr true [7] (-2) = cs!"-0.007" ∧ floatRepr true [0] 1 = cs!"-0.0" := by decide
+
+/-- dtoa's contract — the digits it returns, read as a decimal, round to the double `x` (bits `m` below the sign) — is
+    all that is needed for `str(x)` to read back as exactly `x`. -/
+theorem str_coord_reads_back (neg : Bool) (ds : List Nat) (decpt : Int) (m : Nat) (hne : ds ≠ [])
+    (hd : ∀ d ∈ ds, d < 10) (hm : m < 2 ^ 63)
+    (hdtoa : roundsMag (scale10 (digitsVal ds) (decpt - (ds.length : Int))) m = true) :
+    ReadsAs (floatRepr neg ds decpt) ((if neg then 2 ^ 63 else 0) + m) := by
+  unfold ReadsAs readsAsB
+  rw [str_coord_value neg ds decpt hne hd]
+  have h1 : ((if neg then 2 ^ 63 else 0) + m) % 2 ^ 63 = m := by
+    cases neg <;> simp <;> omega
+  have h2 : ((if neg then 2 ^ 63 else 0) + m) / 2 ^ 63 = (if neg then 1 else 0) := by
+    cases neg <;> simp <;> omega
+  have h3 : (if neg then 2 ^ 63 else 0) + m < 2 ^ 64 := by
+    cases neg <;> simp <;> omega
+  simp only [h1, h2, hdtoa, Bool.and_true, Bool.and_eq_true, decide_eq_true_eq, beq_iff_eq]
+  exact ⟨h3, trivial⟩
+
+example : ReadsAs (floatRepr true [2, 5] (-4)) ((if true then 2 ^ 63 else 0) + 0x3EFA36E2EB1C432D) :=
+  str_coord_reads_back true [2, 5] (-4) 0x3EFA36E2EB1C432D (by decide) (by decide) (by decide) (by decide +kernel)
+
+/-- P1 (numbers). OBJ, PLY, VTK (and OFF through the forgiving reader): if the certificate `coordsReadAs m.verts xs` holds
+    — every vertex token reads as the corresponding double of `xs`, the shape's coordinates; decided per run by the
+    driver — then the file is read back to a mesh whose vertex tokens read as EXACTLY `xs`, vertex by vertex, with the
+    same face cycles.  No hypothesis on the tokens besides the certificate. -/
+theorem read_write_exact (ver cls : Str) (m : Mesh) (xs : List V3B) (hv : WFTok ver) (hc : WFTok cls)
+    (hcert : coordsReadAs m.verts xs = true)
+    (arity : ∀ f ∈ m.faces, 3 ≤ f.length) (range : ∀ f ∈ m.faces, ∀ i ∈ f, i < m.verts.length) :
+    (∀ rd ∈ [readObj (toObj ver cls m), readPly (toPly ver cls m), readVtk (toVtk ver cls m),
+              readOffLenient (toOff ver cls m)],
+        ∃ m', rd = some m' ∧ AllReadAs m'.verts xs ∧ m'.faces = m.faces)
+    ∧ m.verts.length = xs.length := by
+  have hwf := wf_of_cert hcert arity range
+  have hall := coordsReadAs_sound hcert
+  refine ⟨?_, hall.length_eq⟩
+  intro rd hrd
+  simp only [List.mem_cons, List.not_mem_nil, or_false] at hrd
+  rcases hrd with rfl | rfl | rfl | rfl
+  · exact ⟨m, read_write_obj ver cls m hv hc hwf, hall, rfl⟩
+  · exact ⟨m, read_write_ply ver cls m hv hc hwf, hall, rfl⟩
+  · exact ⟨m, read_write_vtk ver cls m hv hc hwf, hall, rfl⟩
+  · exact ⟨m, off_roundtrip_partial ver cls m hv hc hwf, hall, rfl⟩
+
+/-- the pyramid's coordinates as doubles -/
+def C20.pyramidBits : List V3B :=
+  [(0x3FF0000000000000, 0x3FF0000000000000, 0), (0xBFF0000000000000, 0x3FF0000000000000, 0),
+   (0xBFF0000000000000, 0xBFF0000000000000, 0), (0x3FF0000000000000, 0xBFF0000000000000, 0),
+   (0x3E7AD7F29ABCAF48, 0xBEFA36E2EB1C432D, 0x3FF8000000000000)]
+
+theorem C20.pyramid_cert : coordsReadAs pyramid.verts pyramidBits = true := by decide +kernel
+
+example : ∃ m', readVtk (toVtk ver090 clsCP pyramid) = some m' ∧ AllReadAs m'.verts pyramidBits ∧ m'.faces = pyramid.faces :=
+  (read_write_exact ver090 clsCP pyramid pyramidBits (by decide) (by decide) pyramid_cert pyramid_wf.arity
+    pyramid_wf.range).1 _ (by simp)
+
+theorem vat_readsAs {m : Mesh} {xs : List V3B} (h : AllReadAs m.verts xs) {i : Nat} (hi : i < m.verts.length) :
+    V3ReadsAs (vat m i) (xs.getD i (0, 0, 0)) := by
+  unfold vat
+  generalize m.verts = vs at h hi
+  induction h generalizing i with
+  | nil => simp at hi
+  | cons hx _ ih =>
+    cases i with
+    | zero => simpa using hx
+    | succ j => simpa using ih (by simpa using hi)
+
+/-- P1 (numbers, STL). Under the same certificate every facet of the re-read STL file has corner tokens that read as
+    exactly the coordinates of the fan triangle's three vertices: no coordinate is shifted, rounded or re-printed. -/
+theorem read_write_stl_exact (cls : Str) (nrm : V3T → V3T → V3T → V3T) (m : Mesh) (xs : List V3B) (hc : WFTok cls)
+    (hn : WFNrm nrm) (hcert : coordsReadAs m.verts xs = true)
+    (arity : ∀ f ∈ m.faces, 3 ≤ f.length) (range : ∀ f ∈ m.faces, ∀ i ∈ f, i < m.verts.length) :
+    ∃ facets, readStl (toStl cls nrm m) = some facets
+      ∧ facets.map (fun fc => (fc.2.1, fc.2.2.1, fc.2.2.2))
+          = (m.faces.flatMap fan).map (fun t => (vat m t.1, vat m t.2.1, vat m t.2.2))
+      ∧ ∀ f ∈ m.faces, ∀ t ∈ fan f,
+          V3ReadsAs (vat m t.1) (xs.getD t.1 (0, 0, 0)) ∧ V3ReadsAs (vat m t.2.1) (xs.getD t.2.1 (0, 0, 0))
+          ∧ V3ReadsAs (vat m t.2.2) (xs.getD t.2.2 (0, 0, 0)) := by
+  have hwf := wf_of_cert hcert arity range
+  have hall := coordsReadAs_sound hcert
+  refine ⟨_, read_write_stl cls nrm m hc hn hwf, ?_, ?_⟩
+  · simp [List.map_map, Function.comp_def, List.flatMap_def]
+  · intro f hf t ht
+    have hmem : ∀ {a b c : Nat}, (a, b, c) ∈ fan f → a ∈ f ∧ b ∈ f ∧ c ∈ f := by
+      intro a b c h
+      cases f with
+      | nil => simp [fan] at h
+      | cons f0 rest =>
+        simp only [fan, List.mem_map] at h
+        obtain ⟨bc, hbc, heq⟩ := h
+        have h1 := (List.of_mem_zip hbc).1
+        have h2 := List.mem_of_mem_drop (List.of_mem_zip hbc).2
+        cases heq
+        exact ⟨by simp, by simp [h1], by simp [h2]⟩
+    obtain ⟨ha, hb, hc'⟩ := hmem (a := t.1) (b := t.2.1) (c := t.2.2) (by simpa using ht)
+    exact ⟨vat_readsAs hall (range f hf _ ha), vat_readsAs hall (range f hf _ hb), vat_readsAs hall (range f hf _ hc')⟩
+
+example : ∃ facets, readStl (toStl clsCP nrm0 pyramid) = some facets ∧ facets.length = 6 := by
+  obtain ⟨facets, h, hmap, _⟩ := read_write_stl_exact clsCP nrm0 pyramid pyramidBits (by decide) nrm0_wf pyramid_cert
+    pyramid_wf.arity pyramid_wf.range
+  refine ⟨facets, h, ?_⟩
+  have := congrArg List.length hmap
+  simpa using this.trans (by decide)
+
+/-- P1 (numbers, X3D / HTML). Every `point` of the expanded mesh the X3D / X3DOM readers return is the token triple of
+    the face corner it stands for, which reads as exactly that vertex's coordinates. -/
+theorem x3d_points_exact (m : Mesh) (xs : List V3B) (hcert : coordsReadAs m.verts xs = true)
+    (range : ∀ f ∈ m.faces, ∀ i ∈ f, i < m.verts.length) :
+    (expand m).verts = (m.faces.flatMap id).map (vat m)
+    ∧ ∀ f ∈ m.faces, ∀ i ∈ f, V3ReadsAs (vat m i) (xs.getD i (0, 0, 0)) := by
+  refine ⟨by simp [expand, corners, List.flatMap_def, List.map_flatten], ?_⟩
+  intro f hf i hi
+  exact vat_readsAs (coordsReadAs_sound hcert) (range f hf i hi)
+
+example : (expand pyramid).verts.length = 16 := by
+  rw [(x3d_points_exact pyramid pyramidBits pyramid_cert pyramid_wf.range).1]; decide
+
+/-! ### everything together: from dtoa's contract to the exact round trip -/
+
+/-- what `dtoa` delivered for one coordinate, and the coordinate itself (`m` = its low 63 bits) -/
+structure C20.Dtoa where
+  neg : Bool
+  ds : List Nat
+  decpt : Int
+  m : Nat
+
+/-- dtoa's contract: decimal digits whose value rounds (to nearest, ties to even) to the double -/
+def C20.Dtoa.Ok (d : C20.Dtoa) : Prop :=
+  d.ds ≠ [] ∧ (∀ x ∈ d.ds, x < 10) ∧ d.m < 2 ^ 63
+    ∧ roundsMag (scale10 (digitsVal d.ds) (d.decpt - (d.ds.length : Int))) d.m = true
+/-- `str(coord)` -/
+def C20.Dtoa.tok (d : C20.Dtoa) : Tok := floatRepr d.neg d.ds d.decpt
+/-- the coordinate's 64 bits -/
+def C20.Dtoa.bits (d : C20.Dtoa) : Nat := (if d.neg then 2 ^ 63 else 0) + d.m
+
+theorem C20.Dtoa.readsAs {d : C20.Dtoa} (h : d.Ok) : ReadsAs d.tok d.bits :=
+  str_coord_reads_back d.neg d.ds d.decpt d.m h.1 h.2.1 h.2.2.1 h.2.2.2
+
+/-- If dtoa honours its contract on every coordinate, the certificate holds for the tokens `str(coord)` prints. -/
+theorem cert_of_dtoa (vs : List (Dtoa × Dtoa × Dtoa)) (h : ∀ v ∈ vs, v.1.Ok ∧ v.2.1.Ok ∧ v.2.2.Ok) :
+    coordsReadAs (vs.map fun v => (v.1.tok, v.2.1.tok, v.2.2.tok)) (vs.map fun v => (v.1.bits, v.2.1.bits, v.2.2.bits))
+      = true := by
+  induction vs with
+  | nil => rfl
+  | cons v vs ih =>
+    have hv := h v (by simp)
+    have h1 : readsAsB v.1.tok v.1.bits = true := C20.Dtoa.readsAs hv.1
+    have h2 : readsAsB v.2.1.tok v.2.1.bits = true := C20.Dtoa.readsAs hv.2.1
+    have h3 : readsAsB v.2.2.tok v.2.2.bits = true := C20.Dtoa.readsAs hv.2.2
+    simp only [List.map_cons, coordsReadAs, h1, h2, h3, Bool.and_self, Bool.true_and]
+    exact ih fun w hw => h w (by simp [hw])
+
+/-- P1, end to end for the indexed formats: a polyhedron with vertex coordinates `x` (doubles) and faces `faces`;
+    the files are written with `str(coord)` = `floatRepr (dtoa x)`; if dtoa's digits round to the coordinates, then each
+    of the OBJ / PLY / VTK / OFF(lenient) files is read back to vertex tokens that read as EXACTLY the doubles `x`, and to
+    the same faces — no hypothesis on the printed text is left. -/
+theorem export_roundtrip_exact (ver cls : Str) (vs : List (Dtoa × Dtoa × Dtoa)) (faces : List (List Nat))
+    (hv : WFTok ver) (hc : WFTok cls) (hd : ∀ v ∈ vs, v.1.Ok ∧ v.2.1.Ok ∧ v.2.2.Ok)
+    (arity : ∀ f ∈ faces, 3 ≤ f.length) (range : ∀ f ∈ faces, ∀ i ∈ f, i < vs.length) :
+    let m : Mesh := ⟨vs.map fun v => (v.1.tok, v.2.1.tok, v.2.2.tok), faces⟩
+    let x : List V3B := vs.map fun v => (v.1.bits, v.2.1.bits, v.2.2.bits)
+    ∀ rd ∈ [readObj (toObj ver cls m), readPly (toPly ver cls m), readVtk (toVtk ver cls m),
+             readOffLenient (toOff ver cls m)],
+      ∃ m', rd = some m' ∧ AllReadAs m'.verts x ∧ m'.faces = faces := by
+  intro m x
+  exact (read_write_exact ver cls m x hv hc (cert_of_dtoa vs hd) arity (by simpa [m] using range)).1
+
+/-- the tetrahedron (1,1,1), (1,-1,-1), (-1,1,-1), (-1,-1,1) scaled by 2.5e-05: tokens `2.5e-05`, `-2.5e-05` -/
+def C20.tinyTet : List (Dtoa × Dtoa × Dtoa) :=
+  let p : Dtoa := ⟨false, [2, 5], -4, 0x3EFA36E2EB1C432D⟩
+  let n : Dtoa := ⟨true, [2, 5], -4, 0x3EFA36E2EB1C432D⟩
+  [(p, p, p), (p, n, n), (n, p, n), (n, n, p)]
+
+theorem C20.tinyTet_ok : ∀ v ∈ tinyTet, v.1.Ok ∧ v.2.1.Ok ∧ v.2.2.Ok := by
+  have hp : (⟨false, [2, 5], -4, 0x3EFA36E2EB1C432D⟩ : Dtoa).Ok :=
+    ⟨by decide, by decide, by decide, by decide +kernel⟩
+  have hn : (⟨true, [2, 5], -4, 0x3EFA36E2EB1C432D⟩ : Dtoa).Ok :=
+    ⟨by decide, by decide, by decide, by decide +kernel⟩
+  intro v hv
+  simp only [tinyTet, List.mem_cons, List.not_mem_nil, or_false] at hv
+  rcases hv with rfl | rfl | rfl | rfl <;> exact ⟨by assumption, by assumption, by assumption⟩
+
+example : ∃ m', readPly (toPly ver090 clsCP ⟨tinyTet.map fun v => (v.1.tok, v.2.1.tok, v.2.2.tok),
+      [[0, 1, 2], [0, 3, 1], [0, 2, 3], [1, 3, 2]]⟩) = some m'
+    ∧ AllReadAs m'.verts (tinyTet.map fun v => (v.1.bits, v.2.1.bits, v.2.2.bits))
+    ∧ m'.faces = [[0, 1, 2], [0, 3, 1], [0, 2, 3], [1, 3, 2]] :=
+  export_roundtrip_exact ver090 clsCP tinyTet _ (by decide) (by decide) tinyTet_ok (by decide) (by decide) _ (by simp)
+
+/-! ### exporting does not change the shape -/
+
+/-- P1 (no mutation). On the heap model of the writers — `fmt` = 0 OBJ, 1 OFF, 2 STL, 3 PLY, 4 VTK, 5 X3D, 6 HTML; any
+    heap of arrays, any `Polyhedron` / `ConvexPolyhedron` object `shape`, any scalar type (ℝ, doubles) — after the
+    export (a) every array that existed before the call has the contents it had (vertices, cached centroid, equations,
+    faces … of this and of every other object), (b) the shape's attributes hold the same arrays (only the `edges`
+    cache may have been filled, by `to_off`), (c) the coordinates that were printed are the contents of the shape's
+    own `_vertices`: in particular `to_stl`'s `deepcopy` + "shift to positive coordinates" never shifts anything, the
+    STL file carries the vertices themselves. -/
+theorem export_no_mutation {α : Type} [Scalar α] (cen : List α → List α) (fmt : Nat) (h : Heap α) (shape : ShapeH) :
+    (∀ i, i < h.length → (exportH cen fmt h shape).1.get i = h.get i)
+    ∧ (exportH cen fmt h shape).2.1 = { shape with edgesCached := shape.edgesCached || fmt == 1 }
+    ∧ (exportH cen fmt h shape).2.2 = h.get shape.vertices :=
+  exportH_spec cen fmt h shape
+
+example : (exportH (fun _ => [0, 0, 0]) 2 wHeap wShape).1.get 1 = [0, 0, 0]
+    ∧ (exportH (fun _ => [0, 0, 0]) 2 wHeap wShape).2.2 = wHeap.get 0 :=
+  ⟨(export_no_mutation _ 2 wHeap wShape).1 1 (by decide), (export_no_mutation _ 2 wHeap wShape).2.2⟩
+
+/-- P1 (no mutation, histories). Any sequence of exports — any formats, any number, any order (`exportsH` folds
+    `exportH`) — of a shape whose `_vertices` is an array of the heap: afterwards every array that existed has its old
+    contents, the shape object holds the same arrays (`edges` cached iff some export was OFF), and EVERY file of the
+    history was printed from the same coordinates, the shape's own vertices: a later file is never displaced by an
+    earlier export. -/
+theorem export_history_no_mutation {α : Type} [Scalar α] (cen : List α → List α) (fmts : List Nat) (h : Heap α)
+    (shape : ShapeH) (hv : shape.vertices < h.length) :
+    (∀ i, i < h.length → (exportsH cen fmts h shape).1.get i = h.get i)
+    ∧ (exportsH cen fmts h shape).2.1 = { shape with edgesCached := shape.edgesCached || fmts.contains 1 }
+    ∧ (∀ vs ∈ (exportsH cen fmts h shape).2.2, vs = h.get shape.vertices)
+    ∧ (exportsH cen fmts h shape).2.2.length = fmts.length :=
+  exportsH_spec cen fmts h shape hv
+
+example : ∀ vs ∈ (exportsH (fun _ => [0, 0, 0]) [2, 0, 1, 2, 6] wHeap wShape).2.2, vs = wHeap.get 0 :=
+  (export_history_no_mutation _ [2, 0, 1, 2, 6] wHeap wShape (by decide)).2.2.1
+
+/-- The `deepcopy` in `to_stl` is what makes `export_no_mutation` true: with a shallow copy (`copy.copy(shape)`, whose
+    attributes hold the SAME arrays) the loop `shape.centroid[i] -= m` rewrites the caller's cached `_centroid` of a
+    `ConvexPolyhedron` with a negative coordinate — (0,0,0) becomes (1,1,1) for the cube [-1,1]³. -/
+theorem export_no_mutation_needs_deepcopy :
+    (toStlPreH shallowcopyH (fun _ => [0, 0, 0]) wHeap wShape).1.get 1 = [1, 1, 1]
+    ∧ (toStlPreH deepcopyH (fun _ => [0, 0, 0]) wHeap wShape).1.get 1 = [0, 0, 0] :=
+  toStlPre_shallow_mutates
+
+/-! ### STL: outward normals, the fan tiles the face (over ℝ) -/
+
+/-- P1 (STL normals). For a planar convex face `f` whose corners `vs i` are listed counter-clockwise about the vector
+    `n` (`ConvexCCW`: all corners in a plane ⟂ n, every other corner strictly left of every edge), EVERY facet normal
+    `np.cross(t1−t0, t2−t1)` that `to_stl` prints for the fan triangles of `f` is a POSITIVE multiple of `n`: if the
+    face cycle is counter-clockwise seen from outside, all its facets' normals point outward. -/
+theorem stl_normals_outward {n : V3 ℝ} (vs : Nat → V3 ℝ) (f : List Nat)
+    (hc : ConvexCCW n (f.map vs)) (hn : 0 < V3.dot n n) :
+    ∀ N ∈ stlFaceNormals vs f, ∃ c : ℝ, 0 < c ∧ N = V3.smul c n :=
+  stlFaceNormals_outward vs f hc hn
+
+example : ∀ N ∈ stlFaceNormals (fun i => squareZ2.getD i V3.zero) [0, 1, 2, 3],
+    ∃ c : ℝ, 0 < c ∧ N = V3.smul c ⟨0, 0, 1⟩ :=
+  stl_normals_outward _ _ (by simpa [squareZ2] using squareZ2_convexCCW) (by norm_num [V3.dot])
+
+/-- P1 (STL tiling, vector form). For EVERY face (convex or not, planar or not) the printed facet normals add up to
+    the doubled area vector of the face cycle `Σ pᵢ × pᵢ₊₁` (Newell). -/
+theorem stl_normals_sum (vs : Nat → V3 ℝ) (f : List Nat) :
+    V3.sum (stlFaceNormals vs f) = newell2 (f.map vs) :=
+  stlFaceNormals_sum vs f
+
+example : V3.sum (stlFaceNormals (fun i => squareZ2.getD i V3.zero) [0, 1, 2, 3]) = newell2 squareZ2 := by
+  simpa [squareZ2] using stl_normals_sum (fun i => squareZ2.getD i V3.zero) [0, 1, 2, 3]
+
+/-- P1 (STL tiling, areas). For a planar convex counter-clockwise face the facet areas add up to the area of the
+    face (`‖newell2‖ = Σ ‖facet normal‖`, both doubled): together with `stl_fan_covers` (the facets' boundary chain is
+    the face cycle) and `stl_normals_outward` (all equally oriented) the facets tile the face without overlap. -/
+theorem stl_fan_area {n : V3 ℝ} (vs : Nat → V3 ℝ) (f : List Nat)
+    (hc : ConvexCCW n (f.map vs)) (h3 : 3 ≤ f.length) (hn : 0 < V3.dot n n) :
+    (∃ c : ℝ, 0 < c ∧ newell2 (f.map vs) = V3.smul c n)
+    ∧ V3.norm (newell2 (f.map vs)) = Scalar.sum ((stlFaceNormals vs f).map V3.norm) :=
+  stlFaceNormals_area_additive vs f hc h3 hn
+
+example : V3.norm (newell2 squareZ2) = Scalar.sum ((stlFaceNormals (fun i => squareZ2.getD i V3.zero) [0, 1, 2, 3]).map V3.norm) := by
+  simpa [squareZ2] using (stl_fan_area (n := ⟨0, 0, 1⟩) (fun i => squareZ2.getD i V3.zero) [0, 1, 2, 3]
+    (by simpa [squareZ2] using squareZ2_convexCCW) (by decide) (by norm_num [V3.dot])).2
+
+/-! ### the readers reject wrong counts and indices (for ALL texts, not only the model writer's) -/
+
+/-- P1 (declared counts, OFF / PLY bodies). Whatever token stream `readBody V F` accepts: the declared numbers `V`, `F`
+    are exactly the numbers of vertex and face records returned, nothing is left over, every index is in range. -/
+theorem declared_counts_body {V F : Nat} {ts : List Tok} {m : Mesh} (h : readBody V F ts = some m) :
+    m.verts.length = V ∧ m.faces.length = F ∧ inRange m = true ∧ ts.length = 3 * V + F + sumLen m.faces :=
+  ⟨(readBody_sound h).1, (readBody_sound h).2.1, (readBody_sound h).2.2.1, (readBody_sound h).2.2.2.1⟩
+
+example : readBody 2 1 triBody ≠ some triEx ∧ readBody 3 2 triBody ≠ some triEx :=
+  ⟨fun h => by have := (declared_counts_body h).1; revert this; decide,
+   fun h => by have := (declared_counts_body h).2.1; revert this; decide⟩
+
+/-- P1 (declared counts, PLY). A PLY text the reader accepts declares `element vertex V`, `element face F` with `V`, `F`
+    the numbers of vertices and faces it returns. -/
+theorem declared_counts_ply {text : Str} {m : Mesh} (h : readPly text = some m) :
+    ∃ hd ev ef, plyHeader ((tokenize text).drop 2) [] = some hd ∧ hd.1 = [ev, ef]
+      ∧ ev.count = m.verts.length ∧ ef.count = m.faces.length ∧ inRange m = true := by
+  obtain ⟨hd, ev, ef, h1, h2, _, _, h5, h6, h7, _⟩ := readPly_sound h
+  exact ⟨hd, ev, ef, h1, h2, h5, h6, h7⟩
+
+example : ∃ hd ev ef, plyHeader ((tokenize (toPly ver090 clsCP pyramid)).drop 2) [] = some hd ∧ hd.1 = [ev, ef]
+    ∧ ev.count = 5 ∧ ef.count = 5 ∧ inRange pyramid = true :=
+  declared_counts_ply (read_write_ply _ _ _ (by decide) (by decide) pyramid_wf)
+
+/-- P1 (declared counts, VTK). A VTK body the reader accepts has `POINTS n`, `POLYGONS nf size` with `n` the number of
+    vertices, `nf` the number of faces and `size = nf + Σ face lengths` = the number of integers that follow. -/
+theorem declared_counts_vtk {ts : List Tok} {m : Mesh} (h : readVtkBody ts = some m) :
+    ∃ n ty nf sz ftail,
+      ts = cs!"POINTS" :: n :: ty :: (m.verts.flatMap vtoks ++ cs!"POLYGONS" :: nf :: sz :: ftail)
+      ∧ parseNat n = some m.verts.length ∧ parseNat nf = some m.faces.length
+      ∧ parseNat sz = some (m.faces.length + sumLen m.faces)
+      ∧ ftail.length = m.faces.length + sumLen m.faces ∧ inRange m = true := by
+  obtain ⟨n, ty, nf, sz, ftail, h1, _, h3, h4, h5, h6, _, h8⟩ := readVtkBody_sound h
+  exact ⟨n, ty, nf, sz, ftail, h1, h3, h4, h5, h6, h8⟩
+
+example : ∃ version title rest, tokenize (toVtk ver090 clsCP pyramid)
+      = [cs!"#", cs!"vtk", cs!"DataFile", cs!"Version", version] :: title :: [cs!"ASCII"]
+        :: [cs!"DATASET", cs!"POLYDATA"] :: rest ∧ readVtkBody rest.flatten = some pyramid :=
+  readVtk_sound (read_write_vtk _ _ _ (by decide) (by decide) pyramid_wf)
+
+/-- P1 (declared counts, OFF). An OFF text a reader accepts (the face count read by `cnt`: strictly, or forgiving the
+    stray `f`) declares the numbers of vertices and faces it returns. -/
+theorem declared_counts_off {cnt : Tok → Option Nat} {text : Str} {m : Mesh} (h : readOffWith cnt text = some m) :
+    ∃ v f e body, ((tokenize text).map stripComment).flatten = cs!"OFF" :: v :: f :: e :: body
+      ∧ parseNat v = some m.verts.length ∧ cnt f = some m.faces.length ∧ inRange m = true := by
+  obtain ⟨v, f, e, body, _, h1, h2, h3, _, h5, _⟩ := readOffWith_sound h
+  exact ⟨v, f, e, body, h1, h2, h3, h5⟩
+
+example : ∃ v f e body, ((tokenize (toOff ver090 clsCP pyramid)).map stripComment).flatten = cs!"OFF" :: v :: f :: e :: body
+    ∧ parseNat v = some 5 ∧ (fun t => match t with | 'f' :: r => parseNat r | _ => parseNat t) f = some 5
+    ∧ inRange pyramid = true :=
+  declared_counts_off (off_roundtrip_partial _ _ _ (by decide) (by decide) pyramid_wf)
+
+/-- P1 (OBJ indices). OBJ face references are 1-based: the token `0` is rejected, a token with value `k` means vertex
+    `k − 1`; every mesh the OBJ reader returns has all indices in range and faces of ≥ 3 corners. -/
+theorem obj_indices_one_based :
+    (∀ {t : Tok} {i : Nat}, parseIdx1 t = some i → parseNat t = some (i + 1))
+    ∧ (∀ {t : Tok}, parseNat t = some 0 → parseIdx1 t = none)
+    ∧ (∀ {text : Str} {m : Mesh}, readObj text = some m → inRange m = true ∧ ∀ f ∈ m.faces, 3 ≤ f.length) :=
+  ⟨fun h => parseIdx1_sound h, fun h => parseIdx1_zero h, fun h => readObj_sound h⟩
+
+example : inRange pyramid = true ∧ ∀ f ∈ pyramid.faces, 3 ≤ f.length :=
+  obj_indices_one_based.2.2 (read_write_obj ver090 clsCP pyramid (by decide) (by decide) pyramid_wf)
+
+/-- P1 (X3D indices). Every mesh an X3D / X3DOM reader returns has all `coordIndex` entries in range of `point` and
+    faces of ≥ 3 corners. -/
+theorem x3d_indices_in_range {eq : Str → Str → Bool} {doc : Xml} {m : Mesh} (h : readX3dWith eq doc = some m) :
+    inRange m = true ∧ ∀ f ∈ m.faces, 3 ≤ f.length := readX3dWith_sound h
+
+example : inRange (expand pyramid) = true ∧ ∀ f ∈ (expand pyramid).faces, 3 ≤ f.length :=
+  x3d_indices_in_range (read_write_x3d_partial clsCP pyramid pyramid_wf)
+
+/-! ### X3D / HTML at the level of the file's characters -/
+
+/-- The XML parser (names, quoted attribute values with entity / character references decoded, character data, nested
+    elements, matching end tags; white space around the document element) inverts the model of ElementTree's serialiser
+    — start tag, attributes in order with `_escape_attrib`, `" />"` for an element without text and children, otherwise
+    `_escape_cdata` text, children, end tag — on EVERY tree whose tags and attribute names are XML names; attribute
+    values and texts are arbitrary strings and come back exactly. -/
+theorem xml_parse_render (t : Xml) (h : t.WFX) : parseXml t.render = some t := parseXml_render t h
+
+example : parseXml (Xml.node cs!"a" [(cs!"b", cs!"1 & <2>\t\"q\"")] cs!" " [Xml.node cs!"c" [] [] []]).render
+    = some (Xml.node cs!"a" [(cs!"b", cs!"1 & <2>\t\"q\"")] cs!" " [Xml.node cs!"c" [] [] []]) :=
+  xml_parse_render _ (by decide)
+
+/-- P1 (X3D, characters; partial). The X3D file as TEXT, parsed as XML and read by the reader that ignores the case of
+    names, is the expanded mesh — for every well-formed mesh and every class name.  Missing for the full property: only
+    the element names (`x3d_text_roundtrip_fails_all`: the case-sensitive reader finds no scene in the parsed text). -/
+theorem read_write_x3d_text_partial (cls : Str) (m : Mesh) (h : m.WF) :
+    (parseXml (toX3d cls m)).bind readX3dLenient = some (expand m) := readX3dLenient_parseXml_toX3d cls h
+
+example : (parseXml (toX3d clsCP pyramid)).bind readX3dLenient = some (expand pyramid) :=
+  read_write_x3d_text_partial _ _ pyramid_wf
+
+/-- P1 (negative, characters; finding `io.to_x3d:element-name-case`): parsed from the file's text, the document still has
+    the root `x3d` and the node `shape`: the reader of the X3D XML encoding returns nothing — for every mesh. -/
+theorem x3d_text_roundtrip_fails_all (cls : Str) (m : Mesh) : (parseXml (toX3d cls m)).bind readX3d = none := by
+  rw [parseXml_toX3d, Option.bind_some]
+  exact x3d_roundtrip_fails_all cls m
+
+/-- P1 (HTML, characters). The HTML file as TEXT — `<!DOCTYPE html>` followed by one XHTML element — parsed and read as
+    an X3DOM page (`html/body/x3d/scene/shape/indexedfaceset/coordinate`, HTML name matching) is the expanded mesh. -/
+theorem read_write_html_text (cls : Str) (m : Mesh) (h : m.WF) :
+    (parseHtmlDoc (toHtml cls m)).bind readHtml = some (expand m) := readHtml_parseHtmlDoc_toHtml cls h
+
+example : (parseHtmlDoc (toHtml clsCP pyramid)).bind readHtml = some (expand pyramid) :=
+  read_write_html_text _ _ pyramid_wf
